@@ -20,7 +20,7 @@ SAMPLE_RATE = {"quick": 0.05, "thorough": 0.005}
 CHUNK = 48
 STUBS = ["asyncio.open_connection -> FakeNet", "StreamReader -> SegmentedReader (readexactly contract over symbolic cut offsets); concrete replay uses the real asyncio.StreamReader",
          "loop -> VLoop"]
-OUTSIDE = ["more cuts than the bound (quick 3; thorough up to 6)", "pauses between segments longer than 400 s", "frame content is concrete (catalogue frames); symbolic content is C03/C05/C17"]
+OUTSIDE = ["an end of stream anywhere but behind the last frame (C14 has the mid-frame EOF)", "more cuts than the bound (quick 3; thorough up to 6)", "pauses between segments longer than 400 s", "frame content is concrete (catalogue frames); symbolic content is C03/C05/C17"]
 ASSUMPTIONS = []
 
 
@@ -46,6 +46,10 @@ def instances(tier):
         out.append({"gen": g, "seq": [2, 5], "gaps": True})
         # the console repeats a frame byte for byte (same packet id): it is delivered as often as it was sent
         out.append({"gen": g, "seq": [4, 4, 8, 4], "same_pid": True})
+        # the console closes the connection behind the stream: the FIN rides on the last segment, or follows it a little later
+        for eof in ("with_last", "later"):
+            out.append({"gen": g, "seq": [4, 17, 1], "eof": eof})
+            out.append({"gen": g, "seq": [8], "eof": eof})
         if tier == "thorough":
             for c in range(18):
                 for k in (1, 11):
@@ -101,6 +105,8 @@ def run(ctx, p):
                 prev = 0 if k == 0 else cuts[k - 1]
                 if cuts[k] > prev:
                     r.feed_data(stream[prev:cuts[k]])
+            if k == k_cuts and p.get("eof") == "with_last":
+                r.feed_eof()
 
         rig.spawn(rig.sock.open_socket())
         if p.get("gaps"):
@@ -113,13 +119,17 @@ def run(ctx, p):
         else:
             for k in range(k_cuts + 1):
                 rig.loop.vt_call_at(1.0 + k, (lambda k=k: deliver(k)))
+            if p.get("eof") == "later":
+                rig.loop.vt_call_at(1.5 + k_cuts, lambda: readers[0].feed_eof())
             rig.loop.vt_run(k_cuts + 3.5)
         got = [(h.packet_id, m) for _, h, m in rig.received]
         ctx.observe("delivered", len(got))
         exp = [(40 if p.get("same_pid") else 40 + i, m) for i, m in enumerate(msgs)]
         ok = len(got) == len(exp) and all(a[0] == b[0] and a[1] == b[1] for a, b in zip(got, exp))
         ctx.check(ok, "same_messages_once_in_order", detail={"delivered": len(got), "expected": len(exp)})
-        ctx.check(len(rig.net.conns) == 1 and not rig.task_failures(), "same_messages_once_in_order", detail="connection was reset / task failure")
+        # only the console's own close may cost the connection (and then exactly one new one replaces it)
+        conns_ok = len(rig.net.conns) <= 2 if p.get("eof") else len(rig.net.conns) == 1
+        ctx.check(conns_ok and not rig.task_failures(), "same_messages_once_in_order", detail="connection was reset / task failure")
 
 
 def _long_entry(gen, which):
